@@ -220,14 +220,25 @@ def run_contract(cls, tier="quick", seed=0, exclusions=None):
                     obligations=[], failures=[], crashed=None, paths=0, solver_s=0.0, queries=0,
                     assumptions=list(fc.assumptions), native_runs=0, native_failures=[], vacuity=None)
     cases = fc.cases(tier)
-    for case in cases:
+    job_budget = fc.job_budget_s * (2 if tier == "thorough" else 1)
+    for ncase, case in enumerate(cases):
         fc.case = case
-        if time.time() - t0 > fc.job_budget_s:
-            res["crashed"] = "job budget of %d s exhausted before case %s" % (fc.job_budget_s, case)
+        if time.time() - t0 > job_budget:
+            if fc.level == "B":
+                # a bounded stand-in may stop early: what was explored is reported, nothing beyond it is claimed
+                res["truncated"] = "explored the first %d of %d enumerated cases within the job budget of %d s" % (ncase, len(cases), job_budget)
+                res["bound"] = "%s; %s" % (res.get("bound") or "", res["truncated"])
+            else:
+                res["crashed"] = "job budget of %d s exhausted before case %s" % (job_budget, case)
             break
         try:
             _run_symbolic(fc, res, tier, exclusions or [])
         except Unsupported as e:
+            if fc.level == "B" and "exploration budget" in str(e):
+                # bounded stand-in: the case that did not finish within the exploration budget is dropped and said so; nothing is claimed for it
+                res["truncated"] = "case %s not finished (%s); %d of %d enumerated cases explored" % (case, e, ncase, len(cases))
+                res["bound"] = "%s; %s" % (res.get("bound") or "", res["truncated"])
+                break
             res["crashed"] = "Unsupported: %s%s" % (e, "" if case is None else " [case %s]" % (case,))
         except Exception:
             res["crashed"] = traceback.format_exc()
@@ -309,7 +320,7 @@ def _run_symbolic(fc, res, tier, exclusions):
                     tb = traceback.extract_tb(exc.__traceback__)
                     where = ""
                     for fr in reversed(tb):
-                        if "/repo/" in fr.filename:
+                        if (os.environ.get("VERIF_REPO", "/repo").rstrip("/") + "/") in fr.filename:
                             where = " at %s:%d" % (os.path.basename(fr.filename), fr.lineno)
                             break
                     ob = E.fail("%s:noraise" % fc.name, "unexpected %s%s on a feasible path" % (_exc_sig(exc), where))
